@@ -413,6 +413,17 @@ def g_add_network_service(w, rng, st):
             r = iface_ref(st, c)
             if r:
                 ifs.append(r)
+    if rng.random() < (0.3 if w.prop == 'C10' else 0.06):
+        # a type that restricts the kinds of interface it takes, given one permitted and one other kind (not a shared
+        # port, which the connect-time guard rail refuses before any table is consulted)
+        ok = [f for f in free if st.typ(f[2]) in ('DedicatedPort', 'FacilityPort')]
+        other = [f for f in free if st.typ(f[2]) not in ('DedicatedPort', 'FacilityPort', 'SharedPort')]
+        if ok and other:
+            pair = [rng.choice(ok), rng.choice(other)]
+            rng.shuffle(pair)
+            nstype = 'L2PTP'
+            ifs = [{'node': a, 'if': b} for a, b, _ in pair]
+            w.stats.inc('probe.l2ptp_mixed_interface_kinds')
     kw = gen_good_kwargs(rng, 'service') if rng.random() < 0.3 else {}
     s = {'name': pick_name(rng, W.SVC_NAMES, existing), 'nstype': nstype, 'ifs': ifs, 'id': maybe_id(w, rng, st),
          'kw': kw}
